@@ -97,6 +97,8 @@ def type_ok(v, t):
             return True
         if a in ("str", "char") and isinstance(v, str):
             return True
+        if a.startswith("="):
+            return True
         if a == "bytes" and isinstance(v, (bytes, bytearray)):
             return True
         if a in ("None", "none") and v is None:
